@@ -3,6 +3,7 @@ package message
 import (
 	"encoding/binary"
 
+	"github.com/free5gc/ike/internal/verifhook"
 	"github.com/pkg/errors"
 )
 
@@ -104,6 +105,7 @@ func (trafficSelector *TrafficSelectorResponder) Unmarshal(b []byte) error {
 
 		b = b[4:]
 		for ; numberOfSPI > 0; numberOfSPI-- {
+			verifhook.At("message.tsr.selector", len(b))
 			// bounds checking
 			if len(b) < 4 {
 				return errors.Errorf(
